@@ -9,6 +9,10 @@ Monitors (DESIGN.md section 3, C11):
           `filter X` and `filter -x X` must partition the input
   laws    model-free cross-verb laws on raw outputs (head+tail concatenation, tac twice, group sizes,
           grep / grep -v, head -g vs cat -n -g, decimate -n 1, ...)
+  chain   every selector placed AFTER another verb (records reordered / dropped / duplicated / synthesised, NR unrelated
+          to position) or over several files: the same models applied to the upstream verb's own output
+  stat    sample / shuffle / bootstrap over constant data and constant --seed values: uniformity within >= 5-sigma bounds,
+          not the identity, seeds matter, same seed same output (deterministic verdict)
 
 Input and output are DKVP with default separators, so an unchanged record is a byte-identical line.
 """
@@ -40,14 +44,21 @@ A_COMMA = ["x,y", "x", "x,y,z", "w"]
 B_COMMA = ["z", "y,z", "", ",z"]
 
 
-def mk_records(rng, n, ragged, commas=False, empty_mix=0.0):
+WIDE_FILL = [(f"w{j}", str(j)) for j in range(1, 10)]
+
+
+def mk_records(rng, n, ragged, commas=False, empty_mix=0.0, wide=False):
     """n records as lists of (key, value) pairs; every record has a unique id and an always-present
     int k and string s; a, b, i are missing with probability `ragged`; some carry an extra field.
     commas: group-by values contain the default OFS (the stream is then read/written with IFS ';'),
-    so ("x,y","z") and ("x","y,z") must stay different groups."""
+    so ("x,y","z") and ("x","y,z") must stay different groups.
+    wide: nine filler fields follow id, so every record has >= 12 fields (the width from which Miller keeps a
+    per-record key index) and the group-by fields sit behind the 10th position."""
     out = []
     for j in range(n):
         rec = [("id", f"r{j+1}")]
+        if wide:
+            rec += WIDE_FILL
         # empty_mix: on purpose, the same stream holds records whose group-by value is the EMPTY STRING (a legitimate
         # group) and records LACKING the field (member of no group): the two must never be confused
         if rng.random() >= ragged:
@@ -155,9 +166,7 @@ def m_tail(recs, kspec, g):
         stream = sorted(kept)
         by_group = [i for key in members for i in members[key] if i in kept]
         return [stream] if stream == by_group else [stream, by_group]
-    k = int(kspec)
-    if k < 0:
-        return None     # `tail -n -k` is not documented
+    k = abs(int(kspec))     # `tail -n -k` = `tail -n k` (GNU tail, which reference-verbs.md names as the model; see assumptions)
     out = []
     for key, idxs in members.items():      # first-appearance order of groups (reference-verbs.md example)
         out += idxs[max(0, len(idxs) - k):] if k > 0 else []
@@ -252,16 +261,20 @@ def m_grep(recs, flags, pat):
 # ------------------------------------------------------------------------------------------
 # running and judging
 
-def _run(argv, stdin, res, detail):
-    r = R.mlr(argv, stdin=stdin)
+def _run(argv, stdin, res, detail, files=None):
+    r = R.mlr(argv, stdin=stdin, files=files) if files else R.mlr(argv, stdin=stdin)
     bump(res, "runs")
     if r.verdict == "slow":
         res["inconc"] += 1
         return None
     if r.verdict != "exited":
-        # termination belongs to C04; here the run simply cannot be judged
-        res["inconc"] += 1
+        # cpu / output-cap / deadlock on a finite input of <= ~2000 small records: a selecting verb that re-emits its
+        # buffer for ever "invents records" (this property); a process that never ends selected nothing. One case, one
+        # command line: a violation, not an inconclusive run (only the watchdog verdict `slow` above is inconclusive).
         bump(res, "runs_not_terminating_" + r.verdict)
+        add_violation(res, dict(detail["sigbase"], kind="hang", verdict=r.verdict),
+                      f"mlr {' '.join(argv)}: does not terminate on {detail['n']} records ({r.verdict}; {len(r.stdout)} bytes of output)",
+                      dict(argv=argv, stdin=_short(stdin), files=detail.get("files"), stderr=r.err[-1500:], stdout_head=r.stdout[:600]))
         return None
     if r.crashed():
         add_violation(res, dict(detail["sigbase"], kind="crash"),
@@ -280,8 +293,11 @@ def _short(stdin):
     return stdin if len(stdin) <= 6000 else stdin[:6000] + f"... ({len(stdin)} bytes; regenerate from the case seed)"
 
 
-def _judge_indices(res, sigbase, argv, stdin, inp_lines, out_lines, cands, multiset=False, what=""):
-    """Generic selection law + model comparison. Returns the list of output indices or None."""
+def _judge_indices(res, sigbase, argv, stdin, inp_lines, out_lines, cands, multiset=False, what="", alt=None):
+    """Generic selection law + model comparison. Returns the list of output indices or None.
+    alt = (class name, candidate index lists of a model of ONE known defect): the class is attached to the signature
+    only when the WHOLE output equals that alternative model (and not the documented one), so any other wrong
+    selection on the same stream - an off-by-one, a record of an unaffected group - stays unlisted."""
     index = {}
     for i, l in enumerate(inp_lines):
         index.setdefault(l, i)
@@ -304,6 +320,8 @@ def _judge_indices(res, sigbase, argv, stdin, inp_lines, out_lines, cands, multi
         p = 0
         while p < len(got) and p < len(exp) and got[p] == exp[p]:
             p += 1
+        if alt is not None:
+            sigbase = dict(sigbase, **{"class": alt[0] if got in alt[1] else "other"})
         add_violation(res, dict(sigbase, kind="selection"),
                       f"mlr {' '.join(argv)} on {len(inp_lines)} records: {len(got)} records out, model says {len(exp)}; "
                       f"first difference at output position {p + 1}" + (f" ({what})" if what else ""),
@@ -332,9 +350,11 @@ def sel_case(case):
     ragged = case.get("ragged", 0.0)
     commas = bool(case.get("commas"))
     sep = ";" if commas else ","
-    recs = mk_records(rng, n, ragged, commas, case.get("empty_mix", 0.0))
+    recs = mk_records(rng, n, ragged, commas, case.get("empty_mix", 0.0), bool(case.get("wide")))
     sigbase = {"verb": verb, "form": case.get("form", "")}
     res = case_result(_h("sel", sorted((k, repr(v)) for k, v in case.items())))
+    if case.get("wide"):
+        bump(res, "cases_with_records_of_12_or_more_fields")
     if case.get("empty_mix"):
         bump(res, "cases_mixing_empty_value_and_missing_field")
     bump(res, "verb:" + verb)
@@ -342,23 +362,30 @@ def sel_case(case):
     pre = ["--records-per-batch", str(b)] if b else []
     if commas:
         pre = ["--ifs", ";", "--ofs", ";"] + pre
-        keys = {gkey(r, g) for r in recs} - {None}
-        joined = {}
-        for t in keys:
-            joined.setdefault(",".join(t), set()).add(t)
-        sigbase["joined_key_collision"] = any(len(v) > 1 for v in joined.values())
         bump(res, "cases_with_comma_values")
     gargs = ["-g", ",".join(g)] if g else []
     what = ""
+    alt = None
+    # the model of known finding C11-F5 (group identified by the values joined with ','): same verb model over records
+    # whose group-by fields are replaced by ONE field holding the joined text
+    recs_j = None
+    if commas and g:
+        recs_j = [[("__j", ",".join(gkey(x, g)))] if gkey(x, g) is not None else [] for x in recs]
     if verb == "head":
         argv = ["head", "-n", case["k"]] + gargs
         cands = m_head(recs, case["k"], g)
+        if recs_j:
+            alt = ("joined-key-collision", m_head(recs_j, case["k"], ["__j"]))
     elif verb == "tail":
         argv = ["tail", "-n", case["k"]] + gargs
         cands = m_tail(recs, case["k"], g)
+        if recs_j:
+            alt = ("joined-key-collision", m_tail(recs_j, case["k"], ["__j"]))
     elif verb == "decimate":
         argv = ["decimate", "-n", str(case["m"])] + ([case["which"]] if case["which"] else []) + gargs
         cands = m_decimate(recs, case["m"], case["which"], g)
+        if recs_j:
+            alt = ("joined-key-collision", m_decimate(recs_j, case["m"], case["which"], ["__j"]))
     elif verb == "tac":
         argv = ["tac"]
         cands = [list(range(n - 1, -1, -1))]
@@ -368,6 +395,8 @@ def sel_case(case):
     elif verb == "group-by":
         argv = ["group-by", ",".join(g)]
         cands = m_group_by(recs, g)
+        if recs_j:
+            alt = ("joined-key-collision", m_group_by(recs_j, ["__j"]))
     elif verb == "group-like":
         argv = ["group-like"]
         cands = m_group_like(recs)
@@ -388,7 +417,7 @@ def sel_case(case):
     if r is None:
         return res
     inp_lines = [line_of(x, sep) for x in recs]
-    got = _judge_indices(res, sigbase, full, stdin, inp_lines, split_out(r.stdout), cands, what=what)
+    got = _judge_indices(res, sigbase, full, stdin, inp_lines, split_out(r.stdout), cands, what=what, alt=alt)
     res["nontrivial"] = _nontrivial(n, got)
     if got is not None and cands is not None:
         bump(res, "model_checked")
@@ -490,12 +519,12 @@ def dup_case(case):
 def catn_case(case):
     rng = random.Random(case["seed"])
     n, b, g = case["n"], case["b"], case["g"]
-    recs = mk_records(rng, n, case.get("ragged", 0.0), False, case.get("empty_mix", 0.0))
+    recs = mk_records(rng, n, case.get("ragged", 0.0), False, case.get("empty_mix", 0.0), bool(case.get("wide")))
     name = case.get("name")
     argv = (["--records-per-batch", str(b)] if b else []) + ["cat"] + (["-N", name] if name else ["-n"]) + ["-g", ",".join(g)]
     fld = name or "n"
     sigbase = {"verb": "cat-n-g", "form": "N" if name else "n"}
-    res = case_result(_h("catn", g, n, b, name, case.get("empty_mix"), case["seed"]))
+    res = case_result(_h("catn", g, n, b, name, case.get("empty_mix"), case.get("wide"), case["seed"]))
     bump(res, "verb:cat-n-g")
     stdin = text_of(recs)
     r = _run(argv, stdin, res, {"sigbase": sigbase, "n": n})
@@ -563,11 +592,11 @@ def catn_case(case):
 def csim_case(case):
     rng = random.Random(case["seed"])
     n, b, g = case["n"], case["b"], case["g"]
-    recs = mk_records(rng, n, case.get("ragged", 0.0), False, case.get("empty_mix", 0.0))
+    recs = mk_records(rng, n, case.get("ragged", 0.0), False, case.get("empty_mix", 0.0), bool(case.get("wide")))
     oname = case.get("oname")
     argv = (["--records-per-batch", str(b)] if b else []) + ["count-similar", "-g", ",".join(g)] + (["-o", oname] if oname else [])
     sigbase = {"verb": "count-similar", "form": "o" if oname else "default"}
-    res = case_result(_h("csim", g, n, b, oname, case.get("empty_mix"), case["seed"]))
+    res = case_result(_h("csim", g, n, b, oname, case.get("empty_mix"), case.get("wide"), case["seed"]))
     bump(res, "verb:count-similar")
     stdin = text_of(recs)
     r = _run(argv, stdin, res, {"sigbase": sigbase, "n": n})
@@ -605,10 +634,10 @@ def rand_case(case):
     rng = random.Random(case["seed"])
     verb, n, b = case["verb"], case["n"], case["b"]
     g = case.get("g") or []
-    recs = mk_records(rng, n, case.get("ragged", 0.0))
+    recs = mk_records(rng, n, case.get("ragged", 0.0), wide=bool(case.get("wide")))
     pre = ["--seed", str(case["mseed"])] + (["--records-per-batch", str(b)] if b else [])
     sigbase = {"verb": verb, "form": case.get("form", "")}
-    res = case_result(_h("rand", verb, case.get("k"), g, n, b, case["mseed"], case["seed"]))
+    res = case_result(_h("rand", verb, case.get("k"), g, n, b, case.get("wide"), case["mseed"], case["seed"]))
     bump(res, "verb:" + verb)
     if verb == "sample":
         argv = pre + ["sample", "-k", str(case["k"])] + (["-g", ",".join(g)] if g else [])
@@ -672,6 +701,211 @@ def rand_case(case):
     if ok:
         bump(res, "law_checked")
     res["sample"] = {"monitor": "rand", "argv": argv, "n_records": n, "n_out": len(got)}
+    return res
+
+
+# ---- random verbs: statistical laws over FIXED --seed values ----------------------------------
+# "sample -k k" = a uniform sample, "shuffle" = a uniform permutation, "bootstrap" = draws with replacement
+# (reference-verbs.md). A verb that degenerates (identity shuffle, first-k sample, bootstrap = copy) satisfies every
+# subset / permutation / count law above, so these batteries look at MANY draws. Data and --seed values are constants
+# (independent of VERIF_SEED): for a given binary the verdict is deterministic, never flaky; the bounds are >= 5 standard
+# deviations wide, so a correct implementation with ANY generator passes (p < 1e-6 per bound), and a degenerate one is
+# far outside them.
+
+def _pearson(xs, ys):
+    n = len(xs)
+    if n < 2:
+        return 0.0
+    mx, my = sum(xs) / n, sum(ys) / n
+    sxx = sum((x - mx) ** 2 for x in xs)
+    syy = sum((y - my) ** 2 for y in ys)
+    if sxx == 0 or syy == 0:
+        return 0.0
+    return sum((x - mx) * (y - my) for x, y in zip(xs, ys)) / (sxx * syy) ** 0.5
+
+
+def stat_case(case):
+    kind, s0, b = case["kind"], case["seed0"], case["b"]
+    res = case_result(_h("stat", kind, s0, b))
+    res["evals"] = 0
+    bump(res, "stat_battery:" + kind)
+    verb = kind.split("-")[0]
+    sigbase = {"verb": verb, "form": "stat:" + kind}
+    drng = random.Random("c11-stat-data")          # constant data
+    pre = ["--records-per-batch", str(b)] if b else []
+
+    def draw(recs, mseed, vargv, multiset=False):
+        stdin = text_of(recs)
+        argv = ["--seed", str(mseed)] + pre + vargv
+        r = _run(argv, stdin, res, {"sigbase": sigbase, "n": len(recs)})
+        res["evals"] += 1
+        if r is None:
+            return None
+        return _judge_indices(res, sigbase, argv, stdin, [line_of(x) for x in recs], split_out(r.stdout), None, multiset=multiset)
+
+    def fail(what, **detail):
+        add_violation(res, dict(sigbase, kind="not-random"), what, detail)
+
+    def bounds(name, value, lo, hi, argv_example, note):
+        bump(res, "stat_bounds_checked")
+        if not (lo <= value <= hi):
+            fail(f"{kind}: {name} = {value:.4g} outside [{lo}, {hi}] ({note})", argv=argv_example, seeds=f"{s0 + 1}..", statistic=name, value=value)
+
+    if kind == "shuffle-small":
+        n, runs = 5, 60
+        recs = mk_records(drng, n, 0.0)
+        outs = []
+        for j in range(runs):
+            g = draw(recs, s0 + j + 1, ["shuffle"])
+            if g is None or sorted(g) != list(range(n)):
+                return res
+            outs.append(tuple(g))
+        ex = ["--seed", "<s>"] + pre + ["shuffle"]
+        bounds("runs equal to the input order", sum(1 for o in outs if list(o) == sorted(o)), 0, 8, ex, "uniform: 60/120 = 0.5 expected")
+        bounds("distinct permutations", len(set(outs)), 25, 60, ex, "uniform: ~47 of 60 draws from 120 expected")
+        for i in range(n):
+            bounds(f"runs with record {i + 1} first", sum(1 for o in outs if o[0] == i), 1, 36, ex, "uniform: 12 of 60 expected")
+            bounds(f"runs with record {i + 1} last", sum(1 for o in outs if o[-1] == i), 1, 36, ex, "uniform: 12 of 60 expected")
+        # --seed is documented to make the run reproducible
+        for j in (1, 2, 3):
+            g = draw(recs, s0 + j, ["shuffle"])
+            if g is not None and tuple(g) != outs[j - 1]:
+                fail(f"shuffle with --seed {s0 + j} gives two different outputs in two runs", argv=["--seed", str(s0 + j)] + pre + ["shuffle"])
+    elif kind in ("shuffle-large", "bootstrap-large"):
+        n, runs = 1003, 8
+        recs = mk_records(drng, n, 0.0)
+        outs = []
+        vargv = [verb]
+        for j in range(runs):
+            g = draw(recs, s0 + j + 1, vargv, multiset=(verb == "bootstrap"))
+            if g is None or len(g) != n:
+                return res
+            outs.append(tuple(g))
+            ex = ["--seed", str(s0 + j + 1)] + pre + vargv
+            bounds("correlation of output position and input position", _pearson(list(range(n)), list(g)), -0.2, 0.2, ex,
+                   "uniform: 0 +- 0.032")
+            bounds("records left at their input position", sum(1 for p_, i in enumerate(g) if p_ == i), 0, 15, ex, "uniform: 1 expected")
+            if verb == "bootstrap":
+                from collections import Counter
+                c = Counter(g)
+                bounds("distinct input records drawn", len(c), 560, 710, ex, "with replacement: N(1 - 1/e) = 634 +- 11 expected")
+                bounds("largest multiplicity", max(c.values()), 2, 14, ex, "with replacement: about 6 expected")
+        bounds("distinct outputs over 8 seeds", len(set(outs)), 8, 8, ["--seed", "<s>"] + pre + vargv, "different seeds, different draws")
+    elif kind == "bootstrap-small":
+        n, runs = 13, 40
+        recs = mk_records(drng, n, 0.0)
+        outs = []
+        for j in range(runs):
+            g = draw(recs, s0 + j + 1, ["bootstrap"], multiset=True)
+            if g is None or len(g) != n:
+                return res
+            outs.append(tuple(g))
+        ex = ["--seed", "<s>"] + pre + ["bootstrap"]
+        bounds("runs without any repeated record", sum(1 for o in outs if len(set(o)) == n), 0, 2, ex, "13!/13^13 = 2e-5 per run")
+        bounds("distinct outputs", len(set(outs)), 38, 40, ex, "13^13 possible outputs")
+        tot = [sum(o.count(i) for o in outs) for i in range(n)]
+        bounds("fewest draws of one record over 520 draws", min(tot), 12, 40, ex, "uniform: 40 +- 6 expected")
+        bounds("most draws of one record over 520 draws", max(tot), 40, 75, ex, "uniform: 40 +- 6 expected")
+    elif kind in ("sample-groups-k1", "sample-groups-k3"):
+        k = int(kind[-1])
+        ng, per, runs = 200, 8, 6
+        recs = []
+        for j in range(ng * per):
+            recs.append([("id", f"r{j + 1}"), ("a", f"g{j % ng}"), ("k", str(drng.randint(0, 40)))])
+        tally = [0] * per
+        outs = []
+        for j in range(runs):
+            g = draw(recs, s0 + j + 1, ["sample", "-k", str(k), "-g", "a"])
+            if g is None or len(g) != ng * k:
+                if g is not None:
+                    fail(f"sample -k {k} -g a on 200 groups of 8: {len(g)} records out", argv=["--seed", str(s0 + j + 1)] + pre + ["sample", "-k", str(k), "-g", "a"])
+                return res
+            outs.append(tuple(sorted(g)))
+            for i in g:
+                tally[i // ng] += 1
+        ex = ["--seed", "<s>"] + pre + ["sample", "-k", str(k), "-g", "a"]
+        e = runs * ng * k / per
+        sd = (runs * ng * (k / per) * (1 - k / per)) ** 0.5
+        lo, hi = int(e - 5.5 * sd), int(e + 5.5 * sd) + 1
+        bump(res, "stat_bounds_checked", per)
+        if any(not (lo <= t <= hi) for t in tally):
+            # Is the observed distribution the one of known finding C11-F6 (reservoir replacement probability k / NR of
+            # the STREAM instead of k / records seen in the group)? Model of that defect: a record at position p <= k
+            # of its group survives with prod_{q>k}(1 - 1/NR_q); one at p > k ends in the sample with
+            # (k / NR_p) prod_{q>p}(1 - 1/NR_q), NR_q = (q-1)*200 + g + 1 for this interleaved layout.
+            ed, vd = [0.0] * per, [0.0] * per
+            for g_ in range(ng):
+                nr = [q * ng + g_ + 1 for q in range(per)]
+                for p_ in range(per):
+                    pr = 1.0 if p_ < k else k / nr[p_]
+                    for q in range(max(p_ + 1, k), per):
+                        pr *= 1 - 1 / nr[q]
+                    ed[p_] += runs * pr
+                    vd[p_] += runs * pr * (1 - pr)
+            cls = "reservoir-indexed-by-stream-NR" if all(abs(tally[p_] - ed[p_]) <= 5.5 * vd[p_] ** 0.5 + 3 for p_ in range(per)) else "other"
+            add_violation(res, dict(sigbase, kind="not-random", **{"class": cls}),
+                          f"sample -k {k} -g a over 200 interleaved groups of 8 records, {runs} seeds: samples by position within the group "
+                          f"{tally}; uniform sampling gives {e:.0f} +- {sd:.0f} at every position (bounds [{lo}, {hi}])",
+                          dict(argv=ex, seeds=f"{s0 + 1}..{s0 + runs}", tally=tally, stdin=_short(text_of(recs))))
+        bounds("distinct outputs over 6 seeds", len(set(outs)), 6, 6, ex, "different seeds, different draws")
+    elif kind == "sample-downstream":
+        # the sample is uniform over the records the verb RECEIVES, whatever their NR: after tac / sort / filter the last
+        # record of the stream is in a sample of 2 out of 60 in 1 run of 30 on average
+        n, runs = 60, 30
+        recs = mk_records(drng, n, 0.0)
+        for upname, upv, last in (("tac", ["tac"], 0), ("sort -f id", ["sort", "-f", "id"], None), ("second half", ["filter", "NR > 30"], n - 1)):
+            hits_last, hits_first, outs = 0, 0, []
+            for j in range(runs if upname == "tac" else 12):
+                g = draw(recs, s0 + j + 1, upv + ["then", "sample", "-k", "2"])
+                if g is None or len(g) != 2:
+                    if g is not None:
+                        fail(f"{' '.join(upv)} then sample -k 2 on {n} records: {len(g)} records out", argv=["--seed", str(s0 + j + 1)] + pre + upv + ["then", "sample", "-k", "2"])
+                    return res
+                outs.append(tuple(sorted(g)))
+                if last is not None and last in g:
+                    hits_last += 1
+            ex = ["--seed", "<s>"] + pre + upv + ["then", "sample", "-k", "2"]
+            nr = len(outs)
+            bump(res, "stat_bounds_checked", 2)
+            if last is not None and hits_last > 8:
+                cls = "reservoir-indexed-by-stream-NR" if (upname == "tac" and hits_last == nr) else "other"
+                add_violation(res, dict(sigbase, kind="not-random", **{"class": cls}),
+                              f"{' '.join(upv)} then sample -k 2 on {n} records: the LAST record the sample verb receives is in the sample in "
+                              f"{hits_last} of {nr} runs (uniform: {nr * 2 / (n if upname == 'tac' else 30):.1f} expected)",
+                              dict(argv=ex, seeds=f"{s0 + 1}..{s0 + nr}", stdin=_short(text_of(recs))))
+            if len(set(outs)) < nr // 2:
+                cls = "reservoir-indexed-by-stream-NR" if upname == "tac" else "other"
+                add_violation(res, dict(sigbase, kind="not-random", **{"class": cls + "/few-distinct"}),
+                              f"{' '.join(upv)} then sample -k 2 on {n} records: only {len(set(outs))} distinct samples in {nr} runs with different seeds",
+                              dict(argv=ex, seeds=f"{s0 + 1}..{s0 + nr}", stdin=_short(text_of(recs))))
+    elif kind == "sample-large":
+        n = 1003
+        recs = mk_records(drng, n, 0.0)
+        outs = []
+        for j in range(8):
+            g = draw(recs, s0 + j + 1, ["sample", "-k", "100"])
+            if g is None or len(g) != 100:
+                return res
+            outs.append(tuple(sorted(g)))
+            ex = ["--seed", str(s0 + j + 1)] + pre + ["sample", "-k", "100"]
+            bounds("mean input position of the sample", sum(g) / 100.0, 350, 650, ex, "uniform: 501 +- 28 expected")
+            bounds("sampled records among the first 100 of 1003", sum(1 for i in g if i < 100), 0, 30, ex, "uniform: 10 +- 3 expected")
+            bounds("sampled records among the last 100 of 1003", sum(1 for i in g if i >= n - 100), 0, 30, ex, "uniform: 10 +- 3 expected")
+        bounds("distinct outputs over 8 seeds", len(set(outs)), 8, 8, ["--seed", "<s>"] + pre + ["sample", "-k", "100"], "different seeds, different draws")
+        picks = []
+        for j in range(30):
+            g = draw(recs, s0 + 100 + j, ["sample", "-k", "1"])
+            if g is None or len(g) != 1:
+                return res
+            picks.append(g[0])
+        ex = ["--seed", "<s>"] + pre + ["sample", "-k", "1"]
+        bounds("distinct records picked by 30 runs of sample -k 1 over 1003 records", len(set(picks)), 20, 30, ex, "uniform: 29.6 expected")
+        bounds("runs of sample -k 1 that pick one of the first 10 records", sum(1 for i in picks if i < 10), 0, 6, ex, "uniform: 0.3 expected")
+        bounds("runs of sample -k 1 that pick one of the last 10 records", sum(1 for i in picks if i >= n - 10), 0, 6, ex, "uniform: 0.3 expected")
+    else:
+        raise ValueError(kind)
+    res["nontrivial"] = True
+    res["sample"] = {"monitor": "stat", "battery": kind, "runs": res["evals"]}
     return res
 
 
@@ -819,12 +1053,45 @@ def ev(e, d, nr):
     raise ValueError(t)
 
 
+# statements around the bare boolean (reference-dsl.md "Location of boolean expression for filter": "record fields may
+# be assigned in the statements before or after the bare-boolean statement"): (name, text with {E} = the boolean
+# expression, function applied to a passing record). The selection is that of the bare boolean alone; the records
+# that pass carry the assignment. The mini-language never reads z, so an assignment to z placed BEFORE the boolean
+# cannot change its value.
+def _app_z1(rec):
+    return [(k, v) for k, v in rec if k != "z"] + [("z", "1")]
+
+
+def _app_zt(rec):
+    return [(k, v) for k, v in rec if k != "z"] + [("z", "t")]
+
+
+def _unset_p(rec):
+    return [(k, v) for k, v in rec if k != "p"]
+
+
+def _same(rec):
+    return rec
+
+
+STMT_FORMS = {
+    "assign-before": ("$z = 1; {E}", _app_z1),
+    "assign-after": ("{E}; $z = \"t\"", _app_zt),
+    "assign-in-if-after": ("{E}; if (true) { $z = 1 }", _app_z1),
+    "unset-after": ("{E}; unset $p", _unset_p),          # p: an extra field some ragged records carry, never read
+    "oosvar-after": ("{E}; @count[$s] = NR", _same),     # out-of-stream state does not touch the record
+    "end-block": ("{E}; end { @x = 1 }", _same),
+}
+
+
 def filter_case(case):
     rng = random.Random(case["seed"])
     n = case["n"]
     b = case["b"]
     recs = mk_records(rng, n, 0.25)
-    kind = rng.choice(["present", "present", "absent", "multi", "local"])
+    kind = rng.choice(["present", "present", "absent", "multi", "local", "absent", "stmt", "stmt", "quiet"])
+    modify = _same
+    opts = []
     if kind == "absent":
         e = gen_atom_maybe_absent(rng)
         text = show(e)
@@ -836,24 +1103,45 @@ def filter_case(case):
     elif kind == "local":
         e = gen_present(rng, 2)
         text = "var t = $k . \"x\"; " + show(e)
+    elif kind == "stmt":
+        e = gen_present(rng, 2) if rng.random() < 0.7 else gen_atom_maybe_absent(rng)
+        form = rng.choice(sorted(STMT_FORMS))
+        tmpl, modify = STMT_FORMS[form]
+        text = tmpl.replace("{E}", show(e))
+    elif kind == "quiet":
+        # -q: "Does not include the modified record in the output stream" - nothing may come out, with or without -x
+        e = gen_present(rng, 2)
+        text = show(e)
+        opts = ["-q"]
     else:
         e = gen_present(rng, 3)
         text = show(e)
     stdin = text_of(recs)
     inp_lines = [line_of(x) for x in recs]
+    exp_lines = [line_of(modify(x)) for x in recs]       # what record i looks like IF it passes
     pre = ["--records-per-batch", str(b)] if b else []
-    res = case_result(_h("filter", text, n, b, case["seed"]))
+    res = case_result(_h("filter", text, opts, n, b, case["seed"]))
     bump(res, "verb:filter")
+    bump(res, "filter_kind:" + kind)
     vals = [ev(e, dict(x), i + 1) for i, x in enumerate(recs)]
     n_abs = sum(1 for v in vals if v is ABSENT)
     outs = {}
+    abs_side = {}
     for inv in (False, True):
-        argv = pre + ["filter"] + (["-x"] if inv else []) + [text]
-        sigbase = {"verb": "filter", "form": "-x" if inv else "plain"}
+        argv = pre + ["filter"] + opts + (["-x"] if inv else []) + [text]
+        sigbase = {"verb": "filter", "form": ("-x" if inv else "plain") + ("" if kind not in ("stmt", "quiet") else "+" + kind)}
         r = _run(argv, stdin, res, {"sigbase": sigbase, "n": n})
         if r is None:
             return res
-        got = _judge_indices(res, sigbase, argv, stdin, inp_lines, split_out(r.stdout), None)
+        if kind == "quiet":
+            if r.stdout != b"":
+                add_violation(res, dict(sigbase, kind="selection", on="quiet"),
+                              f"mlr {' '.join(argv)}: filter -q printed {len(split_out(r.stdout))} records",
+                              dict(argv=argv, stdin=_short(stdin), got=split_out(r.stdout)[:20]))
+                return res
+            outs[inv] = []
+            continue
+        got = _judge_indices(res, sigbase, argv, stdin, exp_lines, split_out(r.stdout), None)
         if got is None:
             return res
         if got != sorted(got):
@@ -870,13 +1158,20 @@ def filter_case(case):
             add_violation(res, dict(sigbase, kind="selection", on="boolean"),
                           f"mlr {' '.join(argv)}: records where the expression is boolean are selected differently from the "
                           f"Python evaluation (first differing record: {inp_lines[diff[0]] if diff else '?'})",
-                          dict(argv=argv, stdin=_short(stdin), expected=[inp_lines[i] for i in exp_bool[:40]],
-                               got=[inp_lines[i] for i in got_bool[:40]]))
+                          dict(argv=argv, stdin=_short(stdin), expected=[exp_lines[i] for i in exp_bool[:40]],
+                               got=[exp_lines[i] for i in got_bool[:40]]))
             return res
-        # records on which the expression is absent: the statement only requires that each goes to exactly one of
-        # `filter X` / `filter -x X` (partition law below); WHICH side is not judged (see assumptions), only recorded
+        # records on which the expression is absent: each must go to exactly one of `filter X` / `filter -x X`
+        # (partition law below), and ALL of them to the same one (whichever reading of "absent" is taken, it is one
+        # rule, not a per-record choice); which side it is, is recorded for the run-level consistency check
         got_abs = [i for i in got if vals[i] is ABSENT]
+        abs_side[inv] = len(got_abs)
         bump(res, "absent_records_printed_by_filter_-x" if inv else "absent_records_passed_by_filter", len(got_abs))
+    if kind == "quiet":
+        bump(res, "filter_-q_checked")
+        res["nontrivial"] = n > 1
+        res["evals"] = 2
+        return res
     # partition law (model-free)
     a, bb = outs[False], outs[True]
     if set(a) & set(bb) or sorted(a + bb) != list(range(n)):
@@ -886,6 +1181,13 @@ def filter_case(case):
                       dict(argv=pre + ["filter", text], stdin=_short(stdin)))
     else:
         bump(res, "partitions_checked")
+        if n_abs:
+            bump(res, "partitions_checked_with_absent_records")
+    if n_abs and abs_side.get(False) and abs_side.get(True):
+        add_violation(res, {"verb": "filter", "form": "absent", "kind": "absent-side-inconsistent"},
+                      f"filter {text!r}: of the {n_abs} records on which the expression is absent, {abs_side[False]} pass `filter` and "
+                      f"{abs_side[True]} pass `filter -x`: absent is not treated by one rule",
+                      dict(argv=pre + ["filter", text], stdin=_short(stdin)))
     if n_abs:
         bump(res, "filter_cases_with_absent")
     res["nontrivial"] = n > 1 and 0 < len(a) < n
@@ -1038,6 +1340,257 @@ def law_case(case):
     return res
 
 
+# ---- selection downstream of another verb ("upstream" dimension) ---------------------------
+# A selecting verb that is not the first verb of the chain receives a stream that differs from the file: records
+# reordered (tac, sort, group-by), dropped (filter, grep -v, head, tail, decimate), duplicated (repeat), synthesised at end of
+# stream (put -q emit in an end block, count-similar) or mid-stream (nest explode, seqgen) - whose NR / FNR / file name
+# context is unrelated to their position in the stream the selector sees. The selector's documented meaning is about ITS
+# input ("passes through the first n records"), so: run the upstream verb alone, parse its output U, apply the same
+# Python models to U, and compare with `upstream then selector`. (That `A then B` feeds B exactly A's output is C04's
+# law and taken for granted here.) The same code judges an input spread over several files (NR runs on, FNR restarts).
+
+CHAIN_PREDS = [
+    ("$k % 2 == 0", lambda d: int(d["k"]) % 2 == 0),
+    ("$k > 20", lambda d: int(d["k"]) > 20),
+    ('is_present($a) && $a == "pan"', lambda d: d.get("a") == "pan"),
+    ("$k % 3 != 1 || is_absent($a)", lambda d: int(d["k"]) % 3 != 1 or "a" not in d),
+    ("$k % 3 == 0", lambda d: int(d["k"]) % 3 == 0),
+]
+UPSTREAM_NAMES = ["tac", "sort-nr", "sort-f", "filter", "grep-v", "head", "tail", "tail-plus", "repeat", "emit-at-end",
+                  "nest-explode", "count-similar", "group-by", "decimate", "sec-half", "files3", "files2-tac", "seqgen"]
+
+
+def upstream_argv(name, n):
+    j = max(1, (2 * n) // 3)
+    return {
+        "tac": ["tac"],
+        "sort-nr": ["sort", "-nr", "k"],
+        "sort-f": ["sort", "-f", "s", "-nr", "k"],
+        "filter": ["filter", "$k % 3 != 0"],
+        "grep-v": ["grep", "-v", "an"],
+        "head": ["head", "-n", str(j)],
+        "tail": ["tail", "-n", str(j)],
+        "tail-plus": ["tail", "-n", "+4"],
+        "repeat": ["repeat", "-n", "2"],
+        "emit-at-end": ["put", "-q", "@r[NR] = $*; end { for (k, v in @r) { emit v } }"],
+        "nest-explode": ["nest", "--explode", "--values", "--across-records", "-f", "x", "--nested-fs", ";"],
+        "count-similar": ["count-similar", "-g", "a"],
+        "group-by": ["group-by", "a"],
+        "decimate": ["decimate", "-n", "2", "-b"],
+        "sec-half": ["filter", f"NR > {n // 2}"],
+        "files3": [],
+        "files2-tac": ["tac"],
+        "seqgen": ["seqgen", "-f", "id", "--start", "1", "--stop", str(n), "then", "put", "$a = $id % 3; $k = $id * 7 % 41"],
+    }[name]
+
+
+def _parse_line(l):
+    if l == "":
+        return []
+    out = []
+    for kv in l.split(","):
+        k, _, v = kv.partition("=")
+        out.append((k, v))
+    return out
+
+
+def _chain_selectors(rng, m, rounds):
+    """The selector command lines tried over one upstream stream of m records: (verb, form, argv, model spec)."""
+    sels = []
+    kk = sorted({1, 2, 3, max(1, m // 2), max(1, m - 1), max(1, m // 3), m, m + 1})
+    small = [1, 2, 3, max(1, m // 5)]
+    gs = [["a"], ["a", "b"], ["b"]]
+    for _ in range(rounds):
+        k0 = rng.choice(kk)
+        # the statement's law on this stream: head -n k ++ tail -n +(k+1) = the stream
+        sels.append(("head", "nonneg", ["head", "-n", str(k0)], ("head", str(k0), [])))
+        sels.append(("tail", "plus", ["tail", "-n", f"+{k0 + 1}"], ("tail", f"+{k0 + 1}", [])))
+        g = rng.choice(gs)
+        kf = rng.choice([str(rng.choice(small)), str(-rng.choice(small)), f"+{rng.choice(small) + 1}"])
+        sels.append(("tail", ("plus" if kf[0] == "+" else "neg" if kf[0] == "-" else "nonneg") + "-g",
+                     ["tail", "-n", kf, "-g", ",".join(g)], ("tail", kf, g)))
+        kf = str(rng.choice(kk)) if rng.random() < 0.6 else str(-rng.choice(kk))
+        sels.append(("tail", "neg" if kf[0] == "-" else "nonneg", ["tail", "-n", kf], ("tail", kf, [])))
+        g = rng.choice([[], rng.choice(gs)])
+        kf = str(-rng.choice(small if g else kk))
+        sels.append(("head", "neg" + ("-g" if g else ""), ["head", "-n", kf] + (["-g", ",".join(g)] if g else []), ("head", kf, g)))
+        g = rng.choice(gs)
+        kf = str(rng.choice(small))
+        sels.append(("head", "nonneg-g", ["head", "-n", kf, "-g", ",".join(g)], ("head", kf, g)))
+        g = rng.choice([[], rng.choice(gs)])
+        mm, which = rng.choice([1, 2, 3, 7]), rng.choice(["", "-b", "-e"])
+        sels.append(("decimate", (which or "default") + ("-g" if g else ""),
+                     ["decimate", "-n", str(mm)] + ([which] if which else []) + (["-g", ",".join(g)] if g else []), ("decimate", mm, which, g)))
+        t = rng.randrange(6)
+        if t == 0:
+            sels.append(("tac", "", ["tac"], ("tac",)))
+        elif t == 1:
+            g = rng.choice(gs)
+            sels.append(("group-by", f"{len(g)}-fields", ["group-by", ",".join(g)], ("group-by", g)))
+        elif t == 2:
+            fl, pat = rng.choice(GREPS)
+            sels.append(("grep", " ".join(fl), ["grep"] + fl + [pat], ("grep", fl, pat)))
+        elif t == 3:
+            opt, arg = rng.choice(HAVING[:3] + HAVING[12:19])
+            sels.append(("having-fields", opt, ["having-fields", opt, arg], ("having", opt, arg)))
+        elif t == 4:
+            sels.append(("group-like", "", ["group-like"], ("group-like",)))
+        else:
+            sels.append(("nothing", "", ["nothing"], ("nothing",)))
+        t = rng.randrange(3)
+        ms = rng.randint(1, 10 ** 6)
+        if t == 0:
+            g = rng.choice([[], ["a"]])
+            kq = rng.choice([1, 2, max(1, m // 2), m + 1])
+            sels.append(("sample", "-g" if g else "plain", ["sample", "-k", str(kq)] + (["-g", "a"] if g else []), ("sample", kq, g, ms)))
+        elif t == 1:
+            sels.append(("shuffle", "", ["shuffle"], ("shuffle", ms)))
+        else:
+            sels.append(("bootstrap", "default-n", ["bootstrap"], ("bootstrap", ms)))
+        pi = rng.randrange(len(CHAIN_PREDS))
+        sels.append(("filter", "plain", ["filter", CHAIN_PREDS[pi][0]], ("filter", pi, False)))
+        sels.append(("filter", "-x", ["filter", "-x", CHAIN_PREDS[pi][0]], ("filter", pi, True)))
+    return sels
+
+
+def _chain_model(spec, urecs):
+    t = spec[0]
+    if t == "head":
+        return m_head(urecs, spec[1], spec[2])
+    if t == "tail":
+        return m_tail(urecs, spec[1], spec[2])
+    if t == "decimate":
+        return m_decimate(urecs, spec[1], spec[2], spec[3])
+    if t == "tac":
+        return [list(range(len(urecs) - 1, -1, -1))]
+    if t == "group-by":
+        return m_group_by(urecs, spec[1])
+    if t == "group-like":
+        return m_group_like(urecs)
+    if t == "grep":
+        return m_grep(urecs, spec[1], spec[2])
+    if t == "having":
+        return m_having(urecs, spec[1], spec[2])
+    if t == "nothing":
+        return [[]]
+    if t == "filter":
+        f = CHAIN_PREDS[spec[1]][1]
+        return [[i for i, x in enumerate(urecs) if f(dict(x)) != spec[2]]]
+    return None
+
+
+def chain_case(case):
+    from collections import Counter
+    rng = random.Random(case["seed"])
+    up, n, b = case["up"], case["n"], case["b"]
+    res = case_result(_h("chain", up, n, b, case["seed"]))
+    res["evals"] = 0
+    bump(res, "upstream:" + up)
+    recs = mk_records(rng, n, case.get("ragged", 0.2), wide=bool(case.get("wide")))
+    for x in recs:
+        x.append(("x", rng.choice(["u", "u;v", "u;v;w", "t"])))
+    upv = upstream_argv(up, n)
+    pre = ["--records-per-batch", str(b)] if b else []
+    files, fargs, stdin = None, [], text_of(recs)
+    if up.startswith("files"):
+        nf = int(up[5])
+        cuts = sorted(rng.randint(0, n) for _ in range(nf - 1))
+        cuts = [0] + cuts + [n]
+        files = {f"in{j + 1}.dkvp": text_of(recs[cuts[j]:cuts[j + 1]]).encode() for j in range(nf)}
+        fargs = sorted(files)
+        stdin = ""
+    elif up == "seqgen":
+        pre = ["-n"] + pre
+        stdin = ""
+    ctx = {"sigbase": {"verb": "upstream", "form": up}, "n": n, "files": files}
+    r = _run(pre + (upv or ["cat"]) + fargs, stdin, res, ctx, files=files)
+    if r is None:
+        return res
+    ulines = split_out(r.stdout)
+    urecs = [_parse_line(l) for l in ulines]
+    m = len(ulines)
+    cu = Counter(ulines)
+    ntk = []
+    for verb, form, sargv, spec in _chain_selectors(rng, m, case.get("rounds", 1)):
+        sig = {"verb": verb, "form": form, "upstream": up}
+        mpre = list(pre)
+        if spec[0] in ("sample", "shuffle", "bootstrap"):
+            mpre = ["--seed", str(spec[-1])] + mpre
+        full = mpre + (upv + ["then"] if upv else []) + sargv + fargs
+        rr = _run(full, stdin, res, {"sigbase": sig, "n": n, "files": files}, files=files)
+        res["evals"] += 1
+        if rr is None:
+            continue
+        got = split_out(rr.stdout)
+        det = dict(argv=full, argv_upstream_alone=pre + (upv or ["cat"]) + fargs, stdin=_short(stdin),
+                   files=None if files is None else {k: _short(v.decode()) for k, v in files.items()},
+                   upstream_output_records=m)
+        cg = Counter(got)
+        bad = [l for l in cg if l not in cu]
+        if bad:
+            add_violation(res, dict(sig, kind="altered-or-invented"),
+                          f"mlr {' '.join(full)}: output record {bad[0][:120]!r} is not byte-equal to any record the upstream verb emits",
+                          dict(det, got_line=bad[0]))
+            continue
+        if spec[0] != "bootstrap":
+            dup = [l for l, c in cg.items() if c > cu[l]]
+            if dup:
+                add_violation(res, dict(sig, kind="duplicated"),
+                              f"mlr {' '.join(full)}: record {dup[0][:100]!r} comes out {cg[dup[0]]}x, the selector received it {cu[dup[0]]}x",
+                              dict(det, got_line=dup[0]))
+                continue
+        bump(res, "chain_verb:" + verb)
+        ok = True
+        if spec[0] == "sample":
+            kq, g = spec[1], spec[2]
+            sizes, outsz = Counter(), Counter()
+            for x in urecs:
+                key = gkey(x, g)
+                if key is not None:
+                    sizes[key] += 1
+            for l in got:
+                outsz[gkey(_parse_line(l), g)] += 1
+            exp = {key: min(kq, c) for key, c in sizes.items()}
+            if dict(outsz) != exp:
+                ok = False
+                add_violation(res, dict(sig, kind="count"),
+                              f"mlr {' '.join(full)}: per-group sample sizes {dict(list(outsz.items())[:6])} are not min(k, size of the group in "
+                              f"the selector's input) {dict(list(exp.items())[:6])}", dict(det, got=got[:40]))
+        elif spec[0] == "shuffle":
+            if cg != cu:
+                ok = False
+                add_violation(res, dict(sig, kind="count"),
+                              f"mlr {' '.join(full)}: {len(got)} records out, not a permutation of the {m} records the selector received",
+                              dict(det, got=got[:40]))
+        elif spec[0] == "bootstrap":
+            if len(got) != m:
+                ok = False
+                add_violation(res, dict(sig, kind="count"),
+                              f"mlr {' '.join(full)}: {len(got)} records out, the selector received {m}", dict(det, got=got[:40]))
+        else:
+            cands = _chain_model(spec, urecs)
+            exps = [[ulines[i] for i in c] for c in cands]
+            if got not in exps:
+                ok = False
+                exp = exps[0]
+                p_ = 0
+                while p_ < len(got) and p_ < len(exp) and got[p_] == exp[p_]:
+                    p_ += 1
+                add_violation(res, dict(sig, kind="selection"),
+                              f"mlr {' '.join(full)}: {len(got)} records out, the model applied to the {m} records emitted by the upstream verb "
+                              f"says {len(exp)}; first difference at output position {p_ + 1}: got {got[p_][:60] if p_ < len(got) else '<eof>'!r}, "
+                              f"expected {exp[p_][:60] if p_ < len(exp) else '<eof>'!r}",
+                              dict(det, expected=exp[:40], got=got[:40], n_expected=len(exp), n_got=len(got)))
+        if ok:
+            bump(res, "chain_checked")
+            if m > 1 and (0 < len(got) < m or (len(got) == m and got != ulines)):
+                ntk.append(_h("chain", up, sargv, n, b, case["seed"]))
+    res["nontrivial_keys"] = ntk
+    res["nontrivial"] = bool(ntk)
+    res["sample"] = {"monitor": "chain", "upstream": upv, "n_records": n, "upstream_out": m}
+    return res
+
+
 # ---- doc replay (DESIGN 2.9): the reference-verbs.md sections of the C11 verbs ------------------
 
 def doc_case(case):
@@ -1126,7 +1679,7 @@ def sel_cases(chk):
         picked = []
         for want in range(3):
             for item in grid:
-                if len(picked) >= 600:
+                if len(picked) >= 500:
                     break
                 if item[0] == "decimate":
                     kf = item[5][1] + ("1" if item[5][0] == 1 else "n")
@@ -1162,6 +1715,14 @@ def sel_cases(chk):
             c["k"] = crng.choice(["1", "2", "-1", "+2"]) if verb == "tail" else crng.choice(["1", "2", "-1"])
             c["form"] = ("plus" if c["k"].startswith("+") else "neg" if c["k"].startswith("-") else "nonneg") + "-g"
         add(c)
+    # grep formats the record "as DKVP (or NIDX, if -a is supplied), using OFS ',' and OPS '='" whatever the I/O separators are
+    # (mlr grep --help): values that themselves contain ',' must be matched against that in-memory line
+    greps_c = [(["-a"], "x,y,z"), ([], "a=x,b="), ([], "y,b=z"), (["-a"], "^r[0-9]+,x,"), (["-v"], "a=x,y"), (["-a", "-v"], ",z,"),
+               ([], "b=,z,k="), (["-a", "-i"], "X,Y,[0-9]"), ([], "a=x,y,z,b=y,z")]
+    for i in range(18 if q else 120):
+        fl, pat = greps_c[i % len(greps_c)]
+        add({"verb": "grep", "n": crng.choice([5, 13, 60]), "b": crng.choice([1, 7, 500]), "ragged": crng.choice([0.0, 0.2]), "commas": True,
+             "flags": fl, "pat": pat, "form": " ".join(fl) + "+comma-values"})
     # empty value vs missing field in ONE stream, for every -g verb of this monitor
     erng = chk.rng("emptymix")
     for i in range(96 if q else 600):
@@ -1178,7 +1739,27 @@ def sel_cases(chk):
             c["k"] = erng.choice(["1", "2", "3", "-1", "-2"] + (["+2", "+3"] if verb == "tail" else []))
             c["form"] = ("plus" if c["k"].startswith("+") else "neg" if c["k"].startswith("-") else "nonneg") + "-g"
         add(c)
-    nother = 360 if q else 1500
+    # records of >= 12 fields (Miller then keeps a per-record key index that the -g lookups go through) and batches that
+    # are small but > 1, so that tail / tac / group-by / head -n -k buffers are filled over many short batches
+    wrng = chk.rng("wide")
+    for i in range(80 if q else 640):
+        verb = ["head", "tail", "decimate", "group-by", "tac"][i % 5]
+        n = wrng.choice([5, 13, 60, 501])
+        c = {"verb": verb, "n": n, "g": [[], ["a"], ["a", "b"], ["b", "a"]][(i // 5) % 4], "ragged": wrng.choice([0.0, 0.2]),
+             "b": wrng.choice([2, 7, 12, 13]), "wide": i % 8 != 7}
+        if verb == "decimate":
+            c["m"], c["which"] = wrng.choice([1, 2, 3, 7]), wrng.choice(["", "-b", "-e"])
+            c["form"] = (c["which"] or "default") + ("-g" if c["g"] else "")
+        elif verb == "group-by":
+            c["g"] = c["g"] or ["a"]
+            c["form"] = f"{len(c['g'])}-fields"
+        elif verb == "tac":
+            c["g"] = []
+        else:
+            c["k"] = wrng.choice(k_forms(n))
+            c["form"] = ("plus" if c["k"].startswith("+") else "neg" if c["k"].startswith("-") else "nonneg") + ("-g" if c["g"] else "")
+        add(c)
+    nother = 300 if q else 1500
     others = ["tac", "nothing", "group-by", "group-like", "having-fields", "grep"]
     for i in range(nother):
         verb = others[i % len(others)]
@@ -1212,7 +1793,7 @@ def other_cases(chk):
                     "b": rng.choice([1, 500, 0]), "seed": f"{chk.seed}/{chk.tier}/dup/{i}"})
     for i in range(30 if q else 250):
         g, rag = rng.choice(G_SPECS[1:])
-        catn.append({"n": rng.choice(NS), "b": rng.choice([1, 500]), "g": g, "ragged": rag,
+        catn.append({"n": rng.choice(NS), "b": rng.choice([1, 7, 500]), "g": g, "ragged": rag, "wide": i % 2 == 1,
                      "name": rng.choice([None, None, "idx"]), "seed": f"{chk.seed}/{chk.tier}/catn/{i}"})
     # streams that mix empty-valued and field-lacking records: single field, -N name, two fields (one empty / one missing)
     gm = [["a"], ["b"], ["a", "b"], ["b", "a"]]
@@ -1221,12 +1802,13 @@ def other_cases(chk):
                      "empty_mix": rng.choice([0.25, 0.5]), "name": [None, "idx"][(i // 4) % 2], "seed": f"{chk.seed}/{chk.tier}/catn/mix{i}"})
     csim = []
     for i in range(32 if q else 300):
-        csim.append({"n": rng.choice([0, 1, 2, 5, 13, 60, 501]), "b": rng.choice([1, 500, 0]), "g": gm[i % 4], "ragged": rng.choice([0.0, 0.2, 0.35]),
-                     "empty_mix": rng.choice([0.0, 0.25, 0.5]), "oname": [None, "cnt"][(i // 4) % 2], "seed": f"{chk.seed}/{chk.tier}/csim/{i}"})
+        csim.append({"n": rng.choice([0, 1, 2, 5, 13, 60, 501]), "b": rng.choice([1, 7, 500, 0]), "g": gm[i % 4], "ragged": rng.choice([0.0, 0.2, 0.35]),
+                     "empty_mix": rng.choice([0.0, 0.25, 0.5]), "oname": [None, "cnt"][(i // 4) % 2], "wide": (i // 8) % 2 == 1,
+                     "seed": f"{chk.seed}/{chk.tier}/csim/{i}"})
     for i in range(120 if q else 900):
         verb = ["sample", "bootstrap", "shuffle"][i % 3]
         n = rng.choice(NS)
-        c = {"verb": verb, "n": n, "b": rng.choice([1, 500, 0]), "mseed": rng.randint(1, 10 ** 6),
+        c = {"verb": verb, "n": n, "b": rng.choice([1, 7, 500, 0]), "mseed": rng.randint(1, 10 ** 6), "wide": (i // 3) % 4 == 3,
              "seed": f"{chk.seed}/{chk.tier}/rand/{i}"}
         if verb == "sample":
             c["k"] = rng.choice([0, 1, 2, max(0, n - 1), n, n + 1, 10 ** 9, 3])
@@ -1256,6 +1838,37 @@ def other_cases(chk):
     return dup, catn, csim, rnd, laws
 
 
+def chain_or_stat_case(case):
+    return stat_case(case) if "kind" in case else chain_case(case)
+
+
+def chain_cases(chk):
+    rng = chk.rng("chain")
+    q = chk.quick()
+    cases = []
+    for rep in range(2 if q else 12):
+        for ui, up in enumerate(UPSTREAM_NAMES):
+            if q:
+                n = [13, 501][(ui + rep) % 2] if rep == 0 else rng.choice([5, 60, 1003])
+            else:
+                n = [2, 5, 13, 60, 499, 501, 1003][(ui + rep) % 7]
+            cases.append({"up": up, "n": n, "b": rng.choice([1, 7, 500, 0]), "ragged": rng.choice([0.0, 0.2]),
+                          "wide": rng.random() < 0.25, "rounds": 1 if q else 2, "seed": f"{chk.seed}/{chk.tier}/chain/{rep}/{up}"})
+    return cases
+
+
+STAT_KINDS = ["shuffle-small", "shuffle-large", "bootstrap-large", "bootstrap-small", "sample-groups-k1", "sample-groups-k3", "sample-large",
+              "sample-downstream"]
+
+
+def stat_cases(chk):
+    cases = []
+    for si, s0 in enumerate([0] if chk.quick() else [0, 1000, 2000, 3000]):
+        for ki, kind in enumerate(STAT_KINDS):
+            cases.append({"kind": kind, "seed0": s0, "b": [0, 1, 7, 500][(ki + si) % 4]})
+    return cases
+
+
 def run(chk):
     only = getattr(chk, "only", None)
     q = chk.quick()
@@ -1264,7 +1877,13 @@ def run(chk):
                 "records} x batch in {1,500} (quick: Latin-square style sample, thorough: full grid for head/tail/decimate) plus "
                 "tac/nothing/group-by/group-like/having-fields/grep/uniq -a/skip-trivial-records/cat -n -g and sample/bootstrap/"
                 "shuffle under --seed; filter: random expressions of a mirrored mini-language, run plain and with -x; laws: "
-                "model-free cross-verb equalities on raw outputs. Non-trivial = N > 1 and (0 < |output| < |input| or the output is a "
+                "model-free cross-verb equalities on raw outputs; wide: the head/tail/decimate/group-by/tac cells again on records of >= 12 "
+                "fields with batches of 2/7/12/13 records; chain: every selector (head, tail in all forms, decimate, tac, group-by, "
+                "group-like, grep, having-fields, filter/-x, sample, shuffle, bootstrap) placed AFTER one of 18 upstream streams (tac, sort, "
+                "filter, grep -v, head, tail, tail -n +k, repeat, emit in an end block, nest explode, count-similar, group-by, decimate, "
+                "NR > N/2, 3 files, tac over 2 files, seqgen) and judged by the same models applied to the upstream verb's own output; "
+                "stat: 8 batteries of sample/shuffle/bootstrap runs over constant data and constant --seed values with >= 5-sigma bounds. "
+                "Non-trivial = N > 1 and (0 < |output| < |input| or the output is a "
                 "non-identity permutation); distinct = hash of (verb, arguments, N, group spec, batch size, data seed).")
     if not only or "sel" in only:
         chk.pmap(sel_case, sel_cases(chk), chunksize=4, label="sel head/tail/decimate/tac/group/having/grep")
@@ -1277,12 +1896,23 @@ def run(chk):
         chk.pmap(csim_case, csim, chunksize=2, label="count-similar -g")
     if not only or "rand" in only:
         chk.pmap(rand_case, rnd, chunksize=4, label="sample/bootstrap/shuffle")
+    # one fan-out for both (the few long statistics batteries start first and overlap with the chain cases)
+    cs = (stat_cases(chk) if not only or "stat" in only else []) + (chain_cases(chk) if not only or "chain" in only else [])
+    if cs:
+        chk.pmap(chain_or_stat_case, cs, chunksize=1,
+                 label="selectors downstream of another verb / over several files + sample/bootstrap/shuffle statistics over fixed seeds")
     if not only or "filter" in only:
         nf = 200 if q else 3000
         rng = chk.rng("filter")
         cases = [{"n": rng.choice([0, 1, 2, 5, 13, 60, 499, 501]), "b": rng.choice([1, 500, 0]),
                   "seed": f"{chk.seed}/{chk.tier}/filter/{i}"} for i in range(nf)]
         chk.pmap(filter_case, cases, chunksize=2, label="filter mini-language x {plain,-x}")
+        # run-level: whichever side an absent expression takes, it is the same side in every case of the run
+        pa, px = chk.stats.get("absent_records_passed_by_filter", 0), chk.stats.get("absent_records_printed_by_filter_-x", 0)
+        if pa and px:
+            chk.add_violation({"verb": "filter", "form": "absent", "kind": "absent-side-inconsistent", "scope": "run"},
+                              f"over the run, {pa} records with an absent filter expression passed `filter` and {px} passed `filter -x`",
+                              {"note": "see observed.absent_records_*; re-run with --only filter"})
     if not only or "laws" in only:
         chk.pmap(law_case, laws, chunksize=2, label="cross-verb laws")
     if not only or "doc" in only:
@@ -1298,13 +1928,19 @@ def run(chk):
         chk.stats.pop(k)
     chk.extra["cases_per_verb"] = verbs
     chk.extra["cases_per_law"] = lawsc
+    for pref, name in (("upstream:", "chain_cases_per_upstream"), ("chain_verb:", "chain_selections_judged_per_verb"),
+                       ("stat_battery:", "stat_batteries"), ("filter_kind:", "filter_cases_per_kind")):
+        chk.extra[name] = {k[len(pref):]: v for k, v in chk.stats.items() if k.startswith(pref)}
+        for k in [k for k in chk.stats if k.startswith(pref)]:
+            chk.stats.pop(k)
     chk.extra["verbs_named_by_statement_not_judged"] = []
     # options the design lists but this binary does not have (taken from the verbs' --help at run time): not judged
     hh = R.mlr(["having-fields", "--help"]).out
     uh = R.mlr(["uniq", "--help"]).out
     chk.extra["options_not_present"] = (["having-fields " + o for o in ("--all-defined", "--any-defined") if o not in hh] +
                                         ["uniq -a " + o for o in ("-d", "-u") if ("\n" + o + " ") not in uh and ("\n " + o + " ") not in uh])
-    chk.extra["grid"] = {"N": NS, "k_forms": "0,1,2,3,N/5,N/5+1,N-1,N,N+1,1e9,-1,-2,-N/5,-N,-(N+1),+1,+2,+3,+N/5,+N,+(N+1)", "batch": [1, 500, "default"]}
+    chk.extra["grid"] = {"N": NS, "k_forms": "0,1,2,3,N/5,N/5+1,N-1,N,N+1,1e9,-1,-2,-N/5,-N,-(N+1),+1,+2,+3,+N/5,+N,+(N+1)",
+                         "batch": [1, 2, 7, 12, 13, 500, "default"], "record_width": ["5-8 fields", ">= 12 fields"]}
     chk.assumptions = [
         "input and output are DKVP with default separators and separator-free values, so 'unchanged' is byte equality of lines "
         "(formats are C01/C02's subject)",
@@ -1313,8 +1949,28 @@ def run(chk):
         "grouped output order where the documentation is silent is accepted in any of the natural orders: head -n -k -g in stream, "
         "emission or group order; tail -n +k -g in stream or group order; tail -n k -g in first-appearance group order "
         "(reference-verbs.md example)",
-        "tail -n with a negative count is not documented: only the generic law (every output record is an input record, none "
-        "twice) is checked and the case is counted as skipped_out_of_domain",
+        "tail -n -k is judged as tail -n k (the last k, per group with -g). `mlr tail --help` only describes n and +n; reference-verbs.md "
+        "defines the '+' form 'As with GNU tail', and GNU tail reads -n -K as -n K, which is also what the binary does. The other "
+        "conceivable reading (all but the first k, mirroring head -n -k) is what the documented -n +(k+1) form is for. A change of "
+        "either kind is reported",
+        "a run that ends with the verdict cpu / output-cap / deadlock on these finite inputs (<= ~2000 short records) is a violation "
+        "(kind hang): an unbounded re-emission is 'records invented'; only the watchdog verdict `slow` is inconclusive",
+        "selectors downstream of another verb: the expected selection is computed from the upstream verb's ACTUAL output (the verb run "
+        "alone on the same input, same batch size), i.e. that `A then B` feeds B exactly A's output is taken from C04; a selector's "
+        "'first n' / 'last n' / 'one of every n' / per-group counts refer to the records IT receives, whatever NR / FNR / FILENAME "
+        "those records carry; filter predicates used downstream never read NR",
+        "filter with statements around the bare boolean (reference-dsl.md 'Location of boolean expression for filter': record fields "
+        "may be assigned before or after it): the selection is that of the bare boolean and the passing records carry the assignment "
+        "($z = .. appended, unset $p removed); -x inverts the selection only; filter -q prints nothing. These outputs are by "
+        "documentation NOT byte-equal to the input, which the statement's 'unchanged' does not cover",
+        "filter with an ABSENT expression: besides the partition, all absent records of one command must take the SAME side, and the "
+        "same side in every case of the run (kind absent-side-inconsistent)",
+        "statistics of sample / shuffle / bootstrap: data and --seed values are constants, so the verdict for a given binary is "
+        "deterministic; every bound is >= 5 standard deviations from the value a uniform generator gives (p < 1e-6 per bound); the "
+        "laws are: not the identity, different seeds give different outputs, same seed gives the same output, every position / "
+        "record is drawn about equally often, no correlation between output and input position, with-replacement multiplicities",
+        "known finding C11-F5 (group key = values joined with ','): the class joined-key-collision is attached only when the whole "
+        "output equals the same verb model computed with the joined text as the key and differs from the documented model",
         "decimate: -e passes the records whose per-group position is a multiple of n, -b those at position 1 mod n "
         "('first/last of every n'); n <= 0 is rejected by mlr and not generated",
         "filter: comparisons and =~ with an absent operand are absent; boolean connectives are only generated over operands that "
@@ -1333,5 +1989,6 @@ def run(chk):
         "field-lacking records on purpose",
         "count-similar -g: output = records having the fields, grouped in first-appearance order, with count=<group size> appended "
         "(`mlr count-similar --help`); here only membership / order / the count of each record's own group are judged",
-        "sample / bootstrap / shuffle: only subset / multiset / permutation and count laws; no statistical test of uniformity",
+        "sample / bootstrap / shuffle per case: subset / multiset / permutation and count laws (monitor rand, chain); uniformity is the "
+        "subject of the stat batteries",
     ]
